@@ -72,13 +72,13 @@ Proof.
   destruct (mode_dot_z Op acc (if tr then conj_t Op (transpose_rev Op M) else M) (m - dec) false); cbn [rbind]; [|reflexivity].
   apply IH.
 Qed.
-Lemma mmd_e_loop_z_filter_skip skip tr order : forall (l : list (@ztriple F)) st,
-  mmd_e_loop_z Op l skip tr order st = mmd_e_loop_z Op (filter (fun x => negb (is_skip skip (snd x))) l) None tr order st.
+Lemma mmd_e_loop_z_filter_skip skip tr : forall (l : list (@ztriple F)) st,
+  mmd_e_loop_z Op l skip tr st = mmd_e_loop_z Op (filter (fun x => negb (is_skip skip (snd x))) l) None tr st.
 Proof.
   induction l as [|[[M m] i] l IH]; intros st; [reflexivity|].
   cbn [mmd_e_loop_z filter snd]. destruct (is_skip skip i) eqn:E; cbn [negb]; [apply IH|].
   cbn [mmd_e_loop_z is_skip].
-  destruct (py_index order m); [|reflexivity]. destruct (py_index (length (s_out st)) (m - Z.of_nat (s_dec st))); [|reflexivity].
+  destruct (py_index (length (s_out st)) (m - Z.of_nat (s_dec st))); [|reflexivity].
   destruct (ndim M) as [|[|[|k]]]; try reflexivity; apply IH.
 Qed.
 
@@ -102,28 +102,22 @@ Proof.
 Qed.
 Lemma mmd_e_loop_z_lift tr order : forall (L : list (@triple F)) st,
   lsorted (@t_mode F) L -> NoDup (map (@t_mode F) L) -> (forall y, In y L -> s_dec st <= t_mode y) ->
-  length (s_out st) + s_dec st = order ->
-  mmd_e_loop_z Op (map lift L) None tr order st = mmd_e_loop Op L None tr order st.
+  mmd_e_loop_z Op (map lift L) None tr st = mmd_e_loop Op L None tr order st.
 Proof.
-  induction L as [|[[M m] i] L IH]; intros st Hs Hnd Hd Hlen; [reflexivity|].
+  induction L as [|[[M m] i] L IH]; intros st Hs Hnd Hd; [reflexivity|].
   destruct Hs as [Hx Hs]. cbn [map] in Hnd. apply NoDup_cons_iff in Hnd. destruct Hnd as [Hnin Hnd'].
   assert (Hdm : s_dec st <= m) by (apply (Hd (M, m, i)); now left).
   assert (Hrest : forall y, In y L -> S m <= t_mode y).
   { intros y Hy. specialize (Hx y Hy). cbn [t_mode fst snd] in Hx. assert (t_mode y <> m); [|lia].
     intros E. apply Hnin. cbn [t_mode fst snd]. rewrite <- E. now apply in_map. }
-  cbn [map lift mmd_e_loop_z mmd_e_loop is_skip t_mode fst snd].
-  destruct (Nat.lt_ge_cases m order) as [Hm|Hm].
-  - rewrite (py_index_nat _ _ Hm). replace (Z.of_nat m - Z.of_nat (s_dec st))%Z with (Z.of_nat (m - s_dec st)) by lia.
-    rewrite py_index_nat by lia. apply Nat.ltb_lt in Hm. rewrite Hm. cbn [negb]. apply Nat.ltb_lt in Hm.
+  cbn [map lift mmd_e_loop_z mmd_e_loop is_skip t_mode fst snd]. cbv zeta.
+  replace (Z.of_nat m - Z.of_nat (s_dec st))%Z with (Z.of_nat (m - s_dec st)) by lia.
+  destruct (Nat.lt_ge_cases (m - s_dec st) (length (s_out st))) as [Hq|Hq].
+  - rewrite (py_index_nat _ _ Hq). apply Nat.ltb_lt in Hq. rewrite Hq. cbn [negb].
     destruct (ndim M) as [|[|[|k]]]; try reflexivity.
-    + apply IH; cbn [s_dec s_out]; auto.
-      * intros y Hy. specialize (Hrest y Hy). lia.
-      * rewrite remove_nth_length by lia. lia.
-    + apply IH; cbn [s_dec s_out]; auto.
-      * intros y Hy. specialize (Hrest y Hy). lia.
-      * now rewrite set_nth_length.
-  - rewrite (py_index_nat_out _ _ Hm). apply Nat.ltb_ge in Hm. rewrite Hm. cbn [negb].
-    destruct (ndim M) as [|[|[|k]]]; reflexivity.
+    + apply IH; cbn [s_dec]; auto. intros y Hy. specialize (Hrest y Hy). lia.
+    + apply IH; cbn [s_dec]; auto. intros y Hy. specialize (Hrest y Hy). lia.
+  - rewrite (py_index_nat_out _ _ Hq). apply Nat.ltb_ge in Hq. now rewrite Hq.
 Qed.
 
 (* ================================================================ any valid Python modes = the non-negative-mode model *)
@@ -140,12 +134,11 @@ Proof.
     rewrite mmd_loop_z_filter_skip, (mmd_loop_filter_skip_gen Op).
     rewrite (filter_lift (fun i => negb (is_skip skip i))). fold L.
     apply (mmd_loop_z_lift tr L 0 T HsL Hnd). intros; lia.
-  - unfold multi_mode_dot_e_z, multi_mode_dot_e_z_gen, multi_mode_dot_e. cbv zeta.
-    rewrite (norm_modes_valid _ _ _ Hv), zip3z_lift, sort_by_mode_lift. cbn [negb orb]. rewrite mmd_e_fits_z_lift.
-    destruct (mmd_e_fits (shape T) tr skip (sort_by_mode (zip3 Ms (Some ks)))); [|reflexivity].
+  - unfold multi_mode_dot_e_z, multi_mode_dot_e. cbv zeta.
+    rewrite (norm_modes_valid _ _ _ Hv), zip3z_lift, sort_by_mode_lift.
     rewrite mmd_e_loop_z_filter_skip, (mmd_e_loop_filter_skip Op).
     rewrite (filter_lift (fun i => negb (is_skip skip i))). fold L.
-    rewrite (mmd_e_loop_z_lift tr (ndim T) L _ HsL Hnd); [reflexivity | cbn [s_dec]; intros; lia | cbn [s_out s_dec]; rewrite seq_length; lia].
+    rewrite (mmd_e_loop_z_lift tr (ndim T) L _ HsL Hnd); [reflexivity | cbn [s_dec]; intros; lia].
 Qed.
 
 End P.
